@@ -132,3 +132,40 @@ Proof.
       f_equal. rewrite <- Hb. cbn [map concat app].
       rewrite map_app, concat_app. cbn [map concat]. unfold data_of at 3. cbn [fst]. rewrite app_nil_r, <- app_assoc. reflexivity.
 Qed.
+
+(* HTTP with an application-declared Content-Length: no framing is added (the header block already carries the
+   length), the body follows verbatim; writing more than announced is refused with an error and nothing of the
+   offending buffer is sent *)
+Lemma http_declared_length_response f l g0 e0 t :
+  f_proto f = Http -> f_hdr_done f = false -> f_ocl f = Some l ->
+  stream f ((g0, e0) :: t) =
+  (f_hdr f ++ f_server f ++ (if f_cka f then CONN_KA else CONN_CLOSE) ++ CRLF) ++ concat (map data_of ((g0, e0) :: t)).
+Proof.
+  intros Hp Hd Ho. cbn [stream]. unfold format_output, http_format, http_head. rewrite Hp, Hd, Ho.
+  cbn [isSome orb negb]. rewrite andb_true_r, andb_false_r.
+  rewrite stream_http_identity by (first [exact Hp | reflexivity]).
+  destruct (f_cka f); cbn [app concat map]; unfold data_of at 2; cbn [fst]; rewrite ?app_nil_r, <- ?app_assoc; reflexivity.
+Qed.
+
+Lemma http_overrun_is_error f l g e :
+  f_proto f = Http -> f_hdr_done f = true -> f_chunked f = false -> f_ocl f = Some l -> l < f_owritten f + gsize g ->
+  snd (format_output f g e) = true.
+Proof.
+  intros Hp Hd Hc Ho Hl. unfold format_output, http_format. rewrite Hp, Hd, Hc, Ho. cbn [snd overrun].
+  now apply N.ltb_lt.
+Qed.
+Lemma http_within_length_ok f l g e :
+  f_proto f = Http -> f_hdr_done f = true -> f_chunked f = false -> f_ocl f = Some l -> f_owritten f + gsize g <= l ->
+  format_output f g e = (set_fmt f (f_hdr f) true false (Some l) (f_owritten f + gsize g) (f_keepalive f), g, false).
+Proof.
+  intros Hp Hd Hc Ho Hl. unfold format_output, http_format. rewrite Hp, Hd, Hc, Ho. cbn [overrun].
+  assert (E : (l <? f_owritten f + gsize g) = false) by (apply N.ltb_ge; exact Hl). now rewrite E.
+Qed.
+(* an error raised by format_output stops the write before anything reaches the socket *)
+Lemma format_error_sends_nothing c g e f1 nd :
+  k_err c = false -> format_output (k_fmt c) g e = (f1, nd, true) ->
+  sent (fst (nonblocking_write c g e)) = sent c /\ k_err (fst (nonblocking_write c g e)) = true /\
+  sent (blocking_write c g e) = sent c /\ k_err (blocking_write c g e) = true.
+Proof.
+  intros He Hf. unfold nonblocking_write, blocking_write. rewrite He, Hf. cbn. auto.
+Qed.
